@@ -162,6 +162,51 @@ func main() {
 		k := len(ids) - 1 - rng.Intn(minInt(len(ids), 12))
 		return ids[k], true
 	}
+	// "every operation sees a consistent state": invariants evaluated inside one read-locked iteration
+	var invMx sync.Mutex
+	invFails := map[string]string{}
+	invFail := func(key, detail string) {
+		invMx.Lock()
+		if _, ok := invFails[key]; !ok {
+			invFails[key] = detail
+		}
+		invMx.Unlock()
+	}
+	conc := map[string]int{"a": 2, "b": 1, "c": 3} // the same in both definition sets
+	checkSnapshot := func() {
+		running := map[string]int{}
+		r.IterateJobs(func(j *prunner.PipelineJob) {
+			if j.Start != nil && !j.Completed && !j.Canceled {
+				running[j.Pipeline]++
+			}
+			if j.Completed {
+				if j.Start == nil {
+					invFail("completed-without-start", j.ID.String())
+				}
+				if j.End == nil {
+					invFail("completed-without-end", j.ID.String())
+				}
+				for _, t := range j.Tasks {
+					if t.Status == "running" {
+						invFail("completed-job-with-running-task", j.ID.String()+" task "+t.Name)
+					}
+				}
+			}
+			for _, t := range j.Tasks {
+				if t.Status == "done" && t.Start == nil {
+					invFail("done-task-without-start", j.ID.String()+" task "+t.Name)
+				}
+				if t.Status != "waiting" && t.Status != "running" && t.Status != "done" && t.Status != "error" && t.Status != "canceled" && t.Status != "skipped" {
+					invFail("unknown-task-status", t.Status)
+				}
+			}
+		})
+		for p, n := range running {
+			if c, ok := conc[p]; ok && n > c {
+				invFail("more-running-jobs-than-concurrency", fmt.Sprintf("pipeline %s: %d running, concurrency %d", p, n, c))
+			}
+		}
+	}
 	names := []string{"a", "b", "c", "d", "e", "nope"}
 	counts := make([]int64, 12)
 	deadline := time.Now().Add(time.Duration(*ms) * time.Millisecond)
@@ -208,6 +253,7 @@ func main() {
 						})
 					}
 				case 3:
+					checkSnapshot()
 					r.IterateJobs(func(j *prunner.PipelineJob) {
 						sink += len(j.Tasks)
 						if j.Completed || j.Canceled || j.Start != nil || j.LastError != nil {
@@ -279,7 +325,7 @@ func main() {
 	close(stopReaders)
 	wg2.Wait()
 	r.SaveToStore()
-	summary := map[string]interface{}{"kind": "race", "seed": *seed, "ms": *ms, "workers": *workers, "jobs": len(ids), "shutdown_err": fmt.Sprint(serr),
+	summary := map[string]interface{}{"kind": "race", "seed": *seed, "ms": *ms, "workers": *workers, "jobs": len(ids), "shutdown_err": fmt.Sprint(serr), "invariant_failures": invFails,
 		"ops": map[string]int64{"schedule": counts[0], "cancel": counts[1], "read": counts[2], "iterate": counts[3], "list": counts[4], "reload": counts[5],
 			"save": counts[6], "http_jobs": counts[7], "http_detail_logs": counts[8], "http_schedule": counts[9], "http_cancel": counts[10]}}
 	f := os.Stdout
@@ -290,6 +336,10 @@ func main() {
 		}
 	}
 	hutil.JSONLine(f, summary)
+	if len(invFails) > 0 {
+		f.Close()
+		os.Exit(3)
+	}
 }
 
 func minInt(a, b int) int {
